@@ -155,12 +155,19 @@ func fepWalk(ch choose.Chooser, cfg walkCfg) (*walkRes, *modelProver, error) {
 		return nil, nil, err
 	}
 	r.node = node
-	if err := node.startup(200e6); err != nil {
+	if err := node.startup(m, 3); err != nil {
 		r.cleanup()
 		return nil, nil, fmt.Errorf("startup on an empty state failed: %v", err)
 	}
 	for i := 0; i < cfg.steps; i++ {
-		act := choose.Pick(ch, []int{0, 0, 0, 1, 1, 1, 2, 2, 3, 4, 4, 5, 6, 7, 20, 20, 21}, "action")
+		alphabet := []int{0, 0, 0, 1, 1, 1, 2, 2, 3, 4, 4, 5, 6, 7, 20, 20, 21}
+		if cfg.weights != nil {
+			alphabet = append(append([]int{}, cfg.weights...), 20, 20, 21)
+		}
+		act := choose.Pick(ch, alphabet, "action")
+		if act == 0 && cfg.beyond && ch.Int(0, 3, "beyondFinalized") == 0 {
+			act = 12
+		}
 		switch act {
 		case 20:
 			p.mu.Lock()
